@@ -6,14 +6,17 @@ package main
 
 import (
 	"encoding/json"
+	"os"
 	"time"
 
 	"verif/drv"
 	"verif/e1lib"
+	"verif/env"
 )
 
 // table builds a drv.Property from a scenario table.
 func table(id, rule string, assumptions []string, gen func(tier string) []e1lib.Scenario) drv.Property {
+	scenarioTables[id] = gen
 	cache := map[string][]e1lib.Scenario{}
 	get := func(tier string) []e1lib.Scenario {
 		if s, ok := cache[tier]; ok {
@@ -45,6 +48,17 @@ var commonAssumptions = []string{
 	"state merging relies on a 128-bit hash of per-thread observation histories and channel contents",
 }
 
+// scenarioTables gives the free-running pass access to the same scenario lists.
+var scenarioTables = map[string]func(tier string) []e1lib.Scenario{}
+
 func main() {
+	if !env.Sim {
+		realMain()
+		return
+	}
+	if len(os.Args) == 3 && os.Args[1] == "-litmus" {
+		runLitmus(os.Args[2])
+		return
+	}
 	drv.Main(props()...)
 }
